@@ -9,14 +9,14 @@
 
 #define MAXT VRT_MAX_THREADS
 
-enum { C_FREE = 0, C_P = 1, C_D = 2, C_F = 3, C_S = 4 };	/* cost classes */
+enum { C_FREE = 0, C_P = 1, C_D = 2, C_F = 3, C_S = 4, C_Y = 5, C_N = 6 };	/* cost classes */
 enum { ST_OK = 0, ST_FAIL, ST_DEADLOCK, ST_LIVELOCK, ST_HORIZON, ST_CRASH, ST_INTERNAL, ST_SOLO };
 
 #define MAXDEV 40
 struct devent { uint32_t idx; uint8_t alt; uint8_t cost; };
 struct work {
 	uint8_t n;
-	uint8_t used[5];		/* cumulative cost per class */
+	uint8_t used[C_N];		/* cumulative cost per class */
 	struct devent d[MAXDEV];
 };
 
@@ -46,7 +46,7 @@ struct result {
 
 #define PROMO_TAB 8192
 struct config {
-	int budget[5];
+	int budget[C_N];
 	unsigned long horizon;
 	unsigned long livelock_window;
 	int verbose;
